@@ -1635,6 +1635,14 @@ func (bc *Blockchain) removeOldHeaderHashes(index uint32) time.Duration {
 		start   = time.Now()
 		till    = ((int32(index)+1)/headerBatchCount - 1) * headerBatchCount
 	)
+	// On restart HeaderHashes needs the page preceding the last stored one
+	// (counting from the persisted header height), it must be kept whatever
+	// MaxTraceableBlocks is.
+	if hHeight, _, herr := bc.persistent.GetCurrentHeaderHeight(); herr != nil {
+		till = 0
+	} else {
+		till = min(till, (int32(hHeight+1)/headerBatchCount-2)*headerBatchCount)
+	}
 	if till > 0 {
 		err = bc.store.SeekGC(storage.SeekRange{
 			Prefix: []byte{byte(storage.IXHeaderHashList)},
